@@ -212,6 +212,16 @@ type inputRec struct {
 	label string
 }
 
+// Thread is a suspended goroutine (the running one lives in State.frames).
+type Thread struct {
+	frames  []*Frame
+	waitCh  int       // channel object the thread is blocked receiving from (0: runnable)
+	recv    ssa.Value // instruction receiving the value
+	commaOk bool
+	elemT   types.Type
+	done    bool
+}
+
 type State struct {
 	gen       int64
 	pc        []Term
@@ -231,6 +241,9 @@ type State struct {
 	depth     int // fork depth
 	unwind    int
 	panicsOn  bool
+	threads   []*Thread // suspended goroutines (blocked or runnable)
+	resume    []*Thread // threads to return to when the running one blocks or finishes
+	started   map[int]bool
 }
 
 func (st *State) top() *Frame { return st.frames[len(st.frames)-1] }
@@ -306,7 +319,40 @@ func (e *Engine) clone(st *State) *State {
 			n.ghost[k] = v
 		}
 	}
-	for _, f := range st.frames {
+	n.frames = cloneFrames(st.frames)
+	if len(st.threads) > 0 || len(st.resume) > 0 {
+		m := map[*Thread]*Thread{}
+		cp := func(t *Thread) *Thread {
+			if c, ok := m[t]; ok {
+				return c
+			}
+			c := *t
+			c.frames = cloneFrames(t.frames)
+			m[t] = &c
+			return &c
+		}
+		for _, t := range st.threads {
+			n.threads = append(n.threads, cp(t))
+		}
+		for _, t := range st.resume {
+			n.resume = append(n.resume, cp(t))
+		}
+	}
+	if st.started != nil {
+		n.started = make(map[int]bool, len(st.started))
+		for k, v := range st.started {
+			n.started[k] = v
+		}
+	}
+	// both copies get fresh generations so neither mutates shared objects in place
+	st.gen = e.newGen()
+	n.gen = e.newGen()
+	return n
+}
+
+func cloneFrames(fs []*Frame) []*Frame {
+	out := make([]*Frame, 0, len(fs))
+	for _, f := range fs {
 		g := *f
 		g.locals = make(map[ssa.Value]Value, len(f.locals))
 		for k, v := range f.locals {
@@ -317,12 +363,9 @@ func (e *Engine) clone(st *State) *State {
 		for k, v := range f.visits {
 			g.visits[k] = v
 		}
-		n.frames = append(n.frames, &g)
+		out = append(out, &g)
 	}
-	// both copies get fresh generations so neither mutates shared objects in place
-	st.gen = e.newGen()
-	n.gen = e.newGen()
-	return n
+	return out
 }
 
 type hardErr string
